@@ -135,12 +135,16 @@ namespace sqf::parser::sqf
                     // Check if line comment start
                     if (len_ident_match(iter, "#line"))
                     {
-                        iter += 6;
+                        iter += 5;
+                        if (iter != m_end) { ++iter; }
 
                         // Read in line num
                         auto start = iter;
                         for (; iter != m_end && *iter != '\n' && *iter != ' '; iter++);
                         std::string str_tmp(start, iter);
+                        bool is_number = !str_tmp.empty() && str_tmp.length() <= 18;
+                        for (char c : str_tmp) { if (c < '0' || c > '9') { is_number = false; } }
+                        if (!is_number) { break; } // not a #line directive
                         m_line = static_cast<size_t>(std::stoul(str_tmp));
 
                         // Try skip to file
